@@ -4,3 +4,5 @@ import BadsModel.Filter
 import BadsModel.Controller
 import BadsModel.Logger
 import BadsModel.Pipeline
+import BadsModel.Poll
+import BadsModel.Incumbent
